@@ -226,6 +226,7 @@ Payload ==
              r == Render(st.done, lay)
          IN [ph |-> "laid", w |-> st.w, l |-> st.l, lay |-> lay, ast |-> e, toks |-> TokPairs(r), offs |-> Offs(r),
              canon |-> [i \in 1..Len(e) |-> CanonText(e[i])],
+             coded |-> [i \in 1..Len(e) |-> CanonTextAsCoded(e[i])],
              words |-> [i \in 1..Len(e) |-> Canon(e[i])],
              print |-> PrintSchema(e),
              reparsed |-> [i \in 1..Len(e) |-> AfterPrint(e[i])]]
